@@ -31,19 +31,24 @@ pub(crate) fn selection_set(p: &mut Parser) {
 }
 
 pub(crate) fn field_set(p: &mut Parser) {
-    if let Some(T!['{']) = p.peek() {
-        selection_set(p)
-    } else {
-        let _g = p.start_node(SyntaxKind::SELECTION_SET);
-        // We need to enforce recursion limits to prevent
-        // excessive resource consumption or (more seriously)
-        // stack overflows.
-        if p.recursion_limit.check_and_increment() {
-            p.limit_err("parser recursion limit reached");
-            return;
-        }
-        selection(p);
-        p.recursion_limit.decrement();
+    // Open the root node before looking at any token, so that everything
+    // (including lexically invalid input) ends up inside it.
+    let _g = p.start_root_node(SyntaxKind::SELECTION_SET);
+    let has_braces = matches!(p.peek(), Some(T!['{']));
+    if has_braces {
+        p.bump(S!['{']);
+    }
+    // We need to enforce recursion limits to prevent
+    // excessive resource consumption or (more seriously)
+    // stack overflows.
+    if p.recursion_limit.check_and_increment() {
+        p.limit_err("parser recursion limit reached");
+        return;
+    }
+    selection(p);
+    p.recursion_limit.decrement();
+    if has_braces {
+        p.expect(T!['}'], S!['}']);
     }
 }
 
